@@ -318,14 +318,14 @@ func runOne(em *hlib.Emitter, in input) {
 		vals[i] = hlib.F64(v)
 	}
 	type pe struct {
-		Name  string  `json:"name"`
-		Value float64 `json:"value"`
+		Name  string      `json:"name"`
+		Value interface{} `json:"value"`
 	}
 	var pobs []pe
 	pl := make([]string, len(t.Percentiles))
 	for i, p := range t.Percentiles {
 		pl[i] = hlib.Pair(hlib.Bytes(p.Str), hlib.F64(p.Float))
-		pobs = append(pobs, pe{p.Str, p.Float})
+		pobs = append(pobs, pe{p.Str, jf(p.Float)})
 	}
 	sort.Slice(pobs, func(i, j int) bool { return pobs[i].Name < pobs[j].Name })
 	histTerm := "None"
@@ -351,11 +351,15 @@ func runOne(em *hlib.Emitter, in input) {
 		hlib.F64(t.Min), hlib.F64(t.Max), hlib.F64(t.StdDev), hlib.F64(t.Sum), hlib.F64(t.SumSquares), hlib.List(vals), hlib.List(pl), histTerm)
 	c.Coq = hlib.App("Case", hlib.List(zs(in.Pcts)), maskTerm(in.Mask), hlib.ZU(uint64(in.Limit)), hlib.Z(in.Interval),
 		hlib.StrList([]string(t.Tags)), hlib.List(table), hlib.List(pts), hlib.Bool(in.Exact), obsTerm)
-	c.Obs = map[string]interface{}{"count": t.Count, "sampled": t.SampledCount, "per_second": t.PerSecond, "mean": t.Mean, "median": t.Median,
-		"min": t.Min, "max": t.Max, "stddev": t.StdDev, "sum": t.Sum, "sum_squares": t.SumSquares, "percentiles": pobs, "histogram": histObs,
+	c.Obs = map[string]interface{}{"count": t.Count, "sampled": jf(t.SampledCount), "per_second": jf(t.PerSecond), "mean": jf(t.Mean), "median": jf(t.Median),
+		"min": jf(t.Min), "max": jf(t.Max), "stddev": jf(t.StdDev), "sum": jf(t.Sum), "sum_squares": jf(t.SumSquares), "percentiles": pobs, "histogram": histObs,
 		"histogram_nil": t.Histogram == nil, "tags": t.Tags}
 	// direct monitors: things the property says regardless of the model
-	for _, v := range []float64{t.PerSecond, t.Mean, t.Median, t.Min, t.Max, t.StdDev, t.Sum, t.SumSquares} {
+	stats := []float64{t.SampledCount, t.PerSecond, t.Mean, t.Median, t.Min, t.Max, t.StdDev, t.Sum, t.SumSquares}
+	for _, p := range t.Percentiles {
+		stats = append(stats, p.Float)
+	}
+	for _, v := range stats {
 		if math.IsNaN(v) || math.IsInf(v, 0) {
 			c.Monitors = append(c.Monitors, "non-finite statistic from finite values")
 			break
@@ -363,6 +367,15 @@ func runOne(em *hlib.Emitter, in input) {
 	}
 	c.Nontrivial = len(in.Points) >= 2 && (len(in.Pcts) > 0 || t.Histogram != nil)
 	em.Emit(c)
+}
+
+// jf makes a float64 safe for encoding/json (which rejects NaN and infinities): a breaking change
+// of the arithmetic must show up as a failing case, not as a dead harness.
+func jf(f float64) interface{} {
+	if math.IsNaN(f) || math.IsInf(f, 0) {
+		return strconv.FormatFloat(f, 'g', -1, 64)
+	}
+	return f
 }
 
 func zs(xs []int) []string {
